@@ -470,9 +470,9 @@ def run(ctx):
         lines = [json.load(open(ctx.replay))["input"]["line"]]
     else:
         lines = vlib.corpus_lines("C34")
-        lines += [gen_line(ctx.rng, "run") for _ in range(ctx.n(700, 12000))]
+        lines += [gen_line(ctx.rng, "run") for _ in range(ctx.n(700, 8000))]
         if elk:
-            lines += [gen_line(ctx.rng, "cli") for _ in range(ctx.n(60, 1200))]
+            lines += [gen_line(ctx.rng, "cli") for _ in range(ctx.n(50, 600))]
     if not elk:
         lines = [l for l in lines if l.split("\t")[1] != "cli"]
     for l in lines:
